@@ -1051,6 +1051,37 @@ fn run_emitdrop(rounds: usize) -> String {
                 let (ready, go, seen) = (Arc::new(AtomicU64::new(0)), Arc::new(AtomicU64::new(0)), Arc::new(AtomicU64::new(0)));
                 let (tx, rx) = std::sync::mpsc::channel();
                 let probe = Probe { ready: ready.clone(), go: go.clone(), delay: rng.below(64), seen: seen.clone(), dropped: std::sync::Mutex::new(tx) };
+                if round % 4 == 3 {
+                    // capacity 0: the metric is handed to the waiting worker, which has yet to wake up when the
+                    // only handle goes: the stop request must not make it discard what it was given
+                    go.store(1, Ordering::SeqCst);
+                    let q = QueuingMetricSink::with_capacity(probe, 0);
+                    let t0 = Instant::now();
+                    let mut accepted = false;
+                    while !accepted && t0.elapsed() < Duration::from_secs(2) {
+                        accepted = q.emit("first").is_ok();
+                    }
+                    for _ in 0..rng.below(32) {
+                        std::hint::spin_loop();
+                    }
+                    drop(q);
+                    let want = if accepted { 1 } else { 0 };
+                    match rx.recv_timeout(Duration::from_secs(3)) {
+                        Ok(n) if n == want => {}
+                        Ok(n) => {
+                            *failed.lock().unwrap() = Some(format!(
+                                "capacity-0:accepted-metric-lost-when-the-last-handle-was-dropped-right-after-the-emit:{}-accepted-{}-delivered-before-the-wrapped-sink-was-dropped",
+                                want, n
+                            ));
+                            return;
+                        }
+                        Err(_) => {
+                            *failed.lock().unwrap() = Some("capacity-0:wrapped-sink-not-released-after-emit-and-last-drop".to_string());
+                            return;
+                        }
+                    }
+                    continue;
+                }
                 let q = match round % 3 {
                     0 => QueuingMetricSink::from(probe),
                     k => QueuingMetricSink::with_capacity(probe, k),
